@@ -281,6 +281,34 @@ func RunStream(c *Ctx, cfg StreamCfg, handle func(w *Worker, sc StrCase, res *[s
 		long = append(long, StrCase{strings.Repeat("/", 1<<20), -1, "long-slashes"}, StrCase{strings.Repeat("\x00", 1<<16), -1, "long-nul"}, StrCase{"", -1, "empty"})
 		c.Parallel("long", len(long), 1, func(w *Worker, i int) { do(w, long[i]) })
 	}
+	// COMPLETE: every string of length <= 5 (thorough: <= 6) over a 13-byte alphabet that can spell
+	// headers, separators and the shortest elements
+	if cfg.Cover {
+		alpha := []byte("CVS:3.014/ANL")
+		maxLen := c.Pick(5, 6)
+		total := 0
+		pow := 1
+		for l := 0; l <= maxLen; l++ {
+			total += pow
+			pow *= len(alpha)
+		}
+		c.Parallel("short-exhaustive", total, 4096, func(w *Worker, i int) {
+			// index -> (length, digits)
+			l, base := 0, 1
+			k := i
+			for k >= base {
+				k -= base
+				base *= len(alpha)
+				l++
+			}
+			b := make([]byte, l)
+			for j := 0; j < l; j++ {
+				b[j] = alpha[k%len(alpha)]
+				k /= len(alpha)
+			}
+			do(w, StrCase{string(b), -1, "short-exhaustive"})
+		})
+	}
 	// (c)+(d) random
 	for vi, v := range spec.Versions {
 		vi, v := vi, v
